@@ -161,11 +161,12 @@ let conc_phases : ((z * request list) * label list) list Stdlib.ref = ref []   (
 let cur_gap = ref Z0
 let cur_reqs : request list Stdlib.ref = ref []
 let parse_label (t : string) : label =
+  if t = "t" then Tick else
   let n = int_of_string (String.sub t 1 (String.length t - 1)) in
   let rec nat_of k = if k <= 0 then O else S (nat_of (k - 1)) in
   if t.[0] = 'f' then F (nat_of n) else B (nat_of n)
 let rec int_of_nat = function O -> 0 | S k -> 1 + int_of_nat k
-let label_str = function F i -> Printf.sprintf "f%d" (int_of_nat i) | B j -> Printf.sprintf "b%d" (int_of_nat j)
+let label_str = function F i -> Printf.sprintf "f%d" (int_of_nat i) | B j -> Printf.sprintf "b%d" (int_of_nat j) | Tick -> "t"
 
 let conc_end () =
   if !unmodelled then print_endline (Printf.sprintf "CX %s 0 U" !case_id)
